@@ -133,6 +133,12 @@ func TestVerifC02(t *testing.T) {
 		r := c.Rand(n, 0)
 		victimA, victimB := s.Host(2+r.Intn(3)), s.Host(5+r.Intn(3))
 		attacker := s.Host(8 + r.Intn(3))
+		if r.Intn(3) == 0 {
+			// look-alike authorities: the simulator's ports are written with 3s and 4s, so these differ from each other only in
+			// trailing characters of one small set (and the attacker's may extend or shorten the victim's)
+			victimA = s.Host([]int{3, 4, 33}[r.Intn(3)])
+			attacker = s.Host([]int{34, 43, 44}[r.Intn(3)])
+		}
 		// a second attacker shares its IP with a victim and differs only in the port
 		sameIP := strings.Replace(victimA, fmt.Sprint(s.Port), fmt.Sprint(s.AltPort), 1)
 		hosts := []string{victimA, victimB, attacker}
